@@ -239,6 +239,11 @@ func TOMLBytesFail(v interface{}, kind int) []byte {
 	return b
 }
 
+// TOMLToken is TOMLBytesFail for harnesses that place several configuration files into the (symbolic or real) file
+// system: symbolically each call yields a distinct 2-byte token that the decoder stub recognises when the file is
+// read back; natively it is the real TOML text (or the broken text of the given kind).
+func TOMLToken(v interface{}, kind int) []byte { return TOMLBytesFail(v, kind) }
+
 // LedCapture receives the frames sent to the (stubbed or fake) OpenRGB server.
 type LedCapture struct {
 	N      int
